@@ -84,7 +84,7 @@ def OpOk (K : List Key) (op : Op) : Prop :=
 namespace TxSt
 variable {K : List Key} {P : Option Time → Prop}
 
-theorem begin_refines {b : Mem} (hw : b.Within K) (hfit : K.length ≤ b.cap) (hfit' : K.length ≤ 1000)
+theorem begin_refines {b : Mem} (hw : b.Within K) (hfit : K.length ≤ b.cap) (hfit' : K.length ≤ overlaySize)
     (hfree : ∀ k, reserved k = true → b.view k = none) (mode : TxMode) (id timeout : Nat) :
     TxRef K P (begin_ b mode id timeout) (ATx.begin_ b.toTtl) b.toTtl := by
   refine ⟨⟨⟨rfl, fun k => by simp [Mem.view, begin_, freshOverlay, ATx.begin_, TtlMap.find]⟩,
